@@ -7,7 +7,7 @@ import mosaik_api_v3
 class RSim(mosaik_api_v3.Simulator):
     def __init__(self):
         super().__init__({'api_version': '3.0', 'type': 'time-based',
-                          'models': {'M': {'public': True, 'params': [], 'attrs': ['i', 'ti', 'po', 'eo']}}})
+                          'models': {'M': {'public': True, 'params': [], 'attrs': ['i', 'ti', 't2', 'po', 'eo', 'e2']}}})
 
     def init(self, sid, time_resolution=1.0, beh=None, log=None, seed=0, fault=None):
         self.sid = sid; self.beh = beh or {}; self.logf = log; self.rng = random.Random(seed)
@@ -17,8 +17,8 @@ class RSim(mosaik_api_v3.Simulator):
         t = self.beh.get('type', 'time-based'); self.meta['type'] = t
         m = self.meta['models']['M']
         if t == 'hybrid':
-            m['trigger'] = ['ti']; m['non-persistent'] = ['eo']; m['attrs'] = ['i', 'ti', 'po', 'eo']
-        elif t == 'event-based': m['attrs'] = ['ti', 'eo']
+            m['trigger'] = ['ti', 't2']; m['non-persistent'] = ['eo', 'e2']; m['attrs'] = ['i', 'ti', 't2', 'po', 'eo', 'e2']
+        elif t == 'event-based': m['attrs'] = ['ti', 't2', 'eo', 'e2']
         else: m['attrs'] = ['i', 'po']
         self.count = {}
         return self.meta
